@@ -512,6 +512,22 @@ package leveldb
 //@     ghost gManifestFlushed = result == nil
 //@   ensures [C08,C11:a-commit-that-reports-an-error-left-no-record-in-the-manifest] err != nil ==> !gManifestFlushed
 
+// C09 / C08: a manifest whose last write failed is not appended to again - its writer keeps the error for ever and its
+// tail is unknown; the next commit writes a fresh manifest, a complete snapshot. (One failed manifest write used to make
+// every later commit fail: the background commit retried without end holding compCommitLk and Transaction.Commit
+// blocked behind it; F37.)
+//@ ghost var gAppendFailed bool
+//@ func (*session).commit
+//@   props C09 C08
+//@   mode bv
+//@   at before call (*session).flushManifest#1
+//@     assert [C08,C09:a-manifest-whose-last-write-failed-is-not-appended-to-again] !s.manifestBroken
+//@   at entry
+//@     ghost gAppendFailed = false
+//@   at call (*session).flushManifest#1
+//@     ghost gAppendFailed = result != nil
+//@   ensures [C08,C09:a-failed-append-marks-the-manifest-for-replacement] gAppendFailed ==> s.manifestBroken
+
 // O5: a version is installed only by a commit that succeeded.
 //@ ghost var gSnapV ref
 //@ ghost var gSnapped bool
